@@ -152,7 +152,21 @@ pub fn run(config: Config) -> ::anyhow::Result<()> {
         let handle: JoinHandle<anyhow::Result<()>> = Builder::new()
             .name("signals".into())
             .spawn(move || {
+                #[cfg(feature = "verif")]
+                if let aquatic_common::verif::ProbeAction::Return =
+                    aquatic_common::verif::probe("ws:signals:start", 0)
+                {
+                    return Ok(());
+                }
+
                 for signal in &mut signals {
+                    #[cfg(feature = "verif")]
+                    if let aquatic_common::verif::ProbeAction::Return =
+                        aquatic_common::verif::probe("ws:signals:loop", 0)
+                    {
+                        return Ok(());
+                    }
+
                     match signal {
                         SIGUSR1 => {
                             let _ = update_access_list(&config.access_list, &state.access_list);
